@@ -203,6 +203,10 @@ def run_check(prop, tier="quick", seed=0, replay=None):
         for st in prop.streams:
             r = rng.fork()
             ops = st.gen(r, tier)
+            # committed corpus (minimised past failures / witnesses of known findings) runs first
+            cpath = os.path.join(VERIF, "corpus", f"{pid}.{st.name}.ops")
+            if os.path.exists(cpath):
+                ops = [l for l in open(cpath).read().split("\n") if l] + ops
             if replay and replay.get("stream") == st.name:
                 ops = replay["ops"] + ops
             t1 = time.time()
